@@ -43,7 +43,7 @@ NAMED = {
     "(Ax+a)(Bx+b)'(Cx+c)(Dx+d)'": "integrate_general_quartic_outer",
 }
 ALL_KEYS = list(NAMED)
-LAYOUTS = ("shared", "percomp", "mixed", "nomat", "novec", "none")
+LAYOUTS = ("shared", "percomp", "mixed", "nomat", "novec", "none", "samemat")
 
 
 def rows(key, K, L, M):
@@ -172,6 +172,14 @@ def run_cell(cell, rec, seed):
                 tv = np.zeros(n, dtype=int) if vec is None else vec
                 truth_m.append(tm)
                 truth_v.append(tv)
+            if lay == "samemat":
+                # the very same array object passed for two matrices (A and B, C and D) with
+                # different offset vectors: a legitimate call (e.g. (Ax+a)'(Ax+b))
+                names = GENERAL[key]
+                for i0, i1 in ((0, 1), (2, 3)):
+                    if i1 < len(names) and np.shape(truth_m[i0]) == np.shape(truth_m[i1]):
+                        kw[f"{names[i1]}_mat"] = kw[f"{names[i0]}_mat"]
+                        truth_m[i1] = truth_m[i0]
             # omitted matrices force equal row counts only where the expression needs them;
             # identity forms all have D rows, so the typing is consistent.
         elif key == "x(A'x + a)x'":
